@@ -68,6 +68,11 @@ func (h *Hist) amount(r *mon.Rand, bal uint64) uint64 {
 }
 
 func (h *Hist) fee(r *mon.Rand) uint64 {
+	if h.Focus == "C22" && r.Chance(0.45) {
+		// blocks whose total fees are a handful of units: the miner / sharder / delegate parts are then smaller than the number of
+		// recipients and only the remainder handling decides where the tokens go
+		return uint64(r.Intn(4))
+	}
 	switch r.Intn(8) {
 	case 0:
 		return 0
